@@ -808,72 +808,82 @@ func driveC17(c *h.Ctx) error {
 	d.maskCases()
 	d.textCases()
 	c.Exhaustive(true)
-	// ---- second registry: the readers and writers on names that violate the hygiene rules
-	// (model = implementation only; the property is not expected to hold there)
+	// ---- second registry: the library's entries plus well-formed entries of shapes the library
+	// does not have (a named bit 31, a full 32-flag mask, named values 0, 2^31 and 2^32-1, lower-case
+	// and underscore names): the theorems are generic in the registry, so is the correspondence
 	tsnap := c17registerTestEntries()
-	dt := &c17run{c: c, live: tsnap, oracle: false, pfx: "t_"}
+	dt := &c17run{c: c, live: tsnap, oracle: true, pfx: "t_"}
 	dt.testRegistryCases()
 	return d.writeCases(dt, tsnap)
 }
 
-// Go types of the test enumeration / mask (registered only inside this driver process).
+// Go types of the test enumeration / masks (registered only inside this driver process).
 type c17TE uint32
 type c17TM int32
+type c17TM2 int32
+type c17TM3 int32
 
 const (
 	c17tE  = 0x540101
 	c17tM  = 0x540102
 	c17tM2 = 0x540103
+	c17tM3 = 0x540104
 )
 
 var c17testTags = []struct {
 	name string
 	num  int
-}{{"X Y", 0x540110}, {"0x12", 0x540111}, {"TTLV", 0x540112}, {"", 0x540113}, {"12", 0x540114}, {"Dup", 0x540115}, {"Dup", 0x540116},
-	{"0X13", 0x540117}, {"lower", 0x540118}, {"Tag-With.Dots", 0x540119}, {"_u", 0x54011A}, {"0xZZ", 0x54011B}, {"Big", 0x7FFFFFF0}, {"Zero", 0}}
+}{{"VerifTagA", 0x540110}, {"verif_tag_b", 0x540111}, {"V", 0x54FFFF}, {"T0x", 0x000001}, {"Z9", 0xFFFFFF}}
 
-var c17testEnum = map[c17TE]string{1: "A B", 2: "12", 3: "0x10", 4: "", 5: "x|y", 6: "Plain", 7: "0X11", 8: "+5", 9: " Lead", 10: "Dup", 11: "Dup",
-	12: "0xZZ", 13: "4294967296", 14: "Trail ", 15: "-1", 0xFFFFFFFF: "Max", 0: "ZeroValue"}
+var c17testEnum = map[c17TE]string{0: "ZeroValue", 1: "One", 6: "Plain", 42: "x9_z", 0x7FFFFFFF: "MaxInt", 0x80000000: "HighBit", 0xFFFFFFFF: "Max", 7: "E0x10", 8: "X"}
 
-var c17testMask = []string{"A", "", "C", "0x4", "5", "B C", "D|E", "Dup", "Dup", "-1", "Plain", "0X20", "+7", "0xZZ", "x y|z", "Last"}
-
-// c17registerTestEntries registers unhygienic names through the library's public Register* functions
-// and returns the snapshot of the resulting registry.
+// c17registerTestEntries registers the additional entries through the library's public Register*
+// functions and returns the snapshot of the resulting registry.
 func c17registerTestEntries() *reg.Snapshot {
 	for _, t := range c17testTags {
 		ttlv.RegisterTag(t.name, t.num)
 	}
 	ttlv.RegisterEnum(c17tE, c17testEnum)
-	ttlv.RegisterBitmask[c17TM](c17tM, c17testMask...)
 	full := make([]string, 32)
 	for i := range full {
 		full[i] = fmt.Sprintf("F%d", i)
 	}
-	full[3] = ""
 	full[31] = "Top"
-	ttlv.RegisterBitmask[c17TM](c17tM2, full...)
+	ttlv.RegisterBitmask[c17TM](c17tM, full...)
+	ttlv.RegisterBitmask[c17TM2](c17tM2, "Only")
+	ttlv.RegisterBitmask[c17TM3](c17tM3, full[:31]...)
 	return reg.FromLive()
 }
 
 func (d *c17run) testRegistryCases() {
 	c := d.c
-	// tags
+	// tags: same treatment as the library's (written forms, read back, reader on the names)
+	known := map[int64]string{}
+	for _, e := range d.live.TagNames {
+		known[e.Num] = e.Name
+	}
 	for _, t := range c17testTags {
 		n := int64(t.num)
 		c.Eval(fmt.Sprintf("t_tagw/%d", n), true)
 		c.Count("test-registry:tag")
+		cas := map[string]any{"kind": "test-registry", "tag": n}
 		ts := ttlv.TagString(int(n))
 		wx := c17write(fXML, "Integer", func(e *ttlv.Encoder) { e.Integer(int(n), 1) })
 		wj := c17write(fJSON, "Integer", func(e *ttlv.Encoder) { e.Integer(int(n), 1) })
 		wt := c17write(fText, "Integer", func(e *ttlv.Encoder) { e.Integer(int(n), 1) })
 		if wx.Panic != "" || wj.Panic != "" || wt.Panic != "" {
-			c.Count("test-registry:unobservable-output")
+			d.fail("C17/test-registry/tag-rt/writer-panic", fmt.Sprintf("writing test tag 0x%X (%q) panicked: %s %s %s", n, t.name, wx.Panic, wj.Panic, wt.Panic), cas)
 			continue
 		}
+		rx := c17readTagXML(wx.Name, wx.Attr)
+		rj := c17readTagJSON(wj.Tag)
+		if !(rx.Ok && rx.Val == n) || !(rj.Ok && rj.Val == n) || ts != t.name {
+			d.fail("C17/test-registry/tag-rt", fmt.Sprintf("test tag 0x%X registered as %q: TagString %q, XML <%s tag=%s> read back %s, JSON %q read back %s", n, t.name, ts, wx.Name, deref(wx.Attr), rx, wj.Tag, rj), cas)
+		}
 		d.tagwRows = append(d.tagwRows, fmt.Sprintf("(%s, %s, %s, %s, %s, %s)", h.Z(n), c17Str(ts), c17Str(wx.Name), c17OptStr(wx.Attr), c17Str(wj.Tag), c17Str(wt.Tag)))
-		c.IndexCase("mism_t_tagw", len(d.tagwRows)-1, map[string]any{"kind": "test-registry", "tag": n})
+		c.IndexCase("mism_t_tagw", len(d.tagwRows)-1, cas)
 	}
-	raws := []string{"", "TTLV", "0x12", "0X13", "12", "Dup", "lower", "X Y", "0x540110", "0xZZ", "_u", "Tag-With.Dots", "Big", "Zero", "0x7FFFFFF0", "0x0", "Nope"}
+	raws := []string{"", "TTLV", "VerifTagA", "verif_tag_b", "V", "T0x", "Z9", "veriftaga", "0x540110", "0x000001", "0xFFFFFF", "0x0", "Nope", "ActivationDate"}
 	for _, raw := range raws {
 		c.Eval("t_tagr/"+raw, true)
 		cas := map[string]any{"kind": "test-registry", "raw": raw}
@@ -890,14 +900,22 @@ func (d *c17run) testRegistryCases() {
 		c.IndexCase("mism_t_tagr", len(d.tagrRows)-1, cas)
 	}
 	// enumeration
-	for v := int64(0); v <= 17; v++ {
-		d.oneEnumWrite(c17enumCase{0, c17tE, v}, true)
-		d.oneEnumWrite(c17enumCase{c17tE, c17AttributeValue, v}, true)
+	for _, e := range d.live.EnumNames {
+		if e.Tag != c17tE {
+			continue
+		}
+		regd := map[int64]bool{}
+		for _, x := range e.Entries {
+			regd[x.Num] = true
+		}
+		for _, v := range d.enumValues(e, 8000) {
+			d.oneEnumWrite(c17enumCase{0, c17tE, v}, regd[v])
+			d.oneEnumWrite(c17enumCase{c17tE, c17AttributeValue, v}, regd[v])
+		}
 	}
-	d.oneEnumWrite(c17enumCase{0, c17tE, 0xFFFFFFFF}, true)
 	var texts []string
 	for _, n := range c17testEnum {
-		texts = append(texts, n, n+" ", " "+n, strings.ToLower(n))
+		texts = append(texts, n, n+" ", " "+n, strings.ToLower(n), n+"X")
 	}
 	sort.Strings(texts)
 	texts = append(texts, c17numStrings...)
@@ -908,34 +926,19 @@ func (d *c17run) testRegistryCases() {
 		}
 	}
 	// masks
-	for mi, m := range []struct {
-		tag   int64
-		names []string
-	}{{c17tM, c17testMask}, {c17tM2, nil}} {
-		names := m.names
-		if names == nil {
-			for _, e := range d.live.BitmaskNames {
-				if e.Tag == m.tag {
-					names = e.Names
-				}
+	for mi, m := range d.live.BitmaskNames {
+		if m.Tag != c17tM && m.Tag != c17tM2 && m.Tag != c17tM3 {
+			continue
+		}
+		for _, v := range d.maskValues(len(m.Names), uint64(8000+mi)) {
+			d.oneMaskWrite(c17maskCase{0, m.Tag, v})
+			if v < 0 {
+				d.oneMaskWrite(c17maskCase{m.Tag, c17AttributeValue, v})
 			}
 		}
-		for _, v := range d.maskValues(len(names), uint64(8000+mi)) {
-			d.oneMaskWrite(c17maskCase{0, m.tag, v})
-		}
-		var nonEmpty []string
-		for _, n := range names {
-			if n != "" {
-				nonEmpty = append(nonEmpty, n)
-			}
-		}
-		strs := d.maskStrings(nonEmpty, uint64(8100+mi))
-		for _, n := range names {
-			strs = append(strs, n, n+" "+n, n+"|"+n, " "+n, n+" | 0x1")
-		}
-		for _, s := range strs {
+		for _, s := range d.maskStrings(m.Names, uint64(8100+mi)) {
 			for _, form := range []string{"xml", "json"} {
-				d.oneMaskRead(c17readCase{form, 0, m.tag, c17jval{Str: s}})
+				d.oneMaskRead(c17readCase{form, 0, m.Tag, c17jval{Str: s}})
 			}
 		}
 	}
@@ -1668,7 +1671,7 @@ Definition R : registry :=
 		return nil
 	}
 	var st strings.Builder
-	st.WriteString(tsnap.Coq("t_", "(* the test registry: the library's entries plus the unhygienic ones registered by the driver *)\n"))
+	st.WriteString(tsnap.Coq("t_", "(* the test registry: the library's entries plus the well-formed test entries registered by the driver *)\n"))
 	st.WriteString(strings.Replace(c17casesHeader, "From KVGen Require Registry.\n", "", 1))
 	st.WriteString(`
 Definition T : registry :=
@@ -1676,7 +1679,9 @@ Definition T : registry :=
               t_bitmask_names t_bitmask_by_name t_type_names t_name_types.
 `)
 	st.WriteString(c17okDefs("t_", "T"))
-	total = 0
+	st.WriteString("Definition mism_t_registry_ok := Eval vm_compute in (if registry_ok T then @nil Z else [0]).\nPrint mism_t_registry_ok.\n")
+	d.c.IndexCase("mism_t_registry_ok", 0, map[string]any{"kind": "test-registry", "what": "registry_ok does not hold on the test registry (library entries + well-formed test entries)"})
+	total = 1
 	d.c.Extra("rows_per_table_test_registry", dt.emit(&st, &total))
 	return d.c.WriteCases("cases_C17_t.v", st.String(), total)
 }
@@ -1696,9 +1701,15 @@ func c17num(m map[string]any, k string) int64 {
 }
 
 func c17replayDynamic(c *h.Ctx, cas map[string]any) error {
-	d := &c17run{c: c, live: reg.FromLive(), oracle: true}
+	// the test entries live on private tags only; registering them lets cases found on the test
+	// registry replay as well
+	tsnap := c17registerTestEntries()
+	d := &c17run{c: c, live: tsnap, oracle: true}
 	kind, _ := cas["kind"].(string)
 	switch kind {
+	case "test-registry":
+		d.pfx = "t_"
+		d.testRegistryCases()
 	case "tag-rt":
 		n := c17num(cas, "tag")
 		save := d.live.TagNames
